@@ -130,6 +130,19 @@ def main(tier, replay=None):
         if rp.get("kind") == "recorded-move":
             from harness.checks import moves_trace
             return moves_trace.replay(PID, rp, replay)
+        if rp.get("kind") == "wfmove2-case":
+            from harness.checks import wfmove
+            wfmove._CONST.update(rp["constants"])
+            wk = common.tmpdir("c09w-")
+            try:
+                fails = wfmove.replay_case2(rp, wk)
+            finally:
+                common.rmtree(wk)
+            if fails:
+                print(f"VIOLATION property={PID} replay={replay}\n  {fails[:2]}")
+                return 1
+            print("replay: holds")
+            return 0
         if rp.get("kind") == "wfmove-case":
             from harness.checks import wfmove
             wk = common.tmpdir("c09w-")
@@ -159,6 +172,9 @@ def main(tier, replay=None):
         wwork = os.path.join(work, "wf")
         os.makedirs(wwork)
         wfmove.run(chk, PID, tier, wwork)
+        wwork2 = os.path.join(work, "wf2")
+        os.makedirs(wwork2)
+        wfmove.run_two_jumps(chk, PID, tier, wwork2, chk.seed + 77)
         for mod in ("Moves.tla", "LatticeOps.tla"):
             os.symlink(os.path.join(tlc.SPEC_DIR, mod), os.path.join(work, mod))
         for (L, M, R, maxold, nsteps, mls) in ([(0, 2, 3, 5, 3, "{5, 7}")] if q else [(0, 2, 3, 5, 4, "{5, 7}"), (0, 1, 3, 5, 4, "{6}"), (0, 3, 4, 7, 4, "{8, 9}")]):
